@@ -974,6 +974,28 @@ def run_c13(ctx, tier, rnd, pool, design):
             sc = [dict(op="w", n=n) for n in _ragged(rnd, total, [4096, 100000])]
             groups.append((f"repeat-with-unit-size/{writer}",
                            [dict(base, id=f"c13-{i}-u", script=sc, chunk_size=rnd.choice([4096, 65536, 100000]), repeat=3, decode=False)]))
+    # LZIP with a member size: the statement quantifies over write partitions for the LZIP writer without reservation (only LZMA2 / XZ
+    # are excepted when a chunk / block size is set), so the member boundaries - multiples of the effective member size (the
+    # configured one, raised to the dictionary size) - may not depend on where the caller's pieces end: one write against pieces
+    # below the member size that do not divide it, pieces above it, a call ending one byte before / after a boundary, ragged
+    n_ms = 0
+    for i in range(5 if quick else 40):
+        opt = opts_pool(rnd, "lzip")
+        opt["dict"] = d = rnd.choice([4096, 5000, 8192, 20000, 65536])
+        member = [d + d // 3 + 1, d, d // 2, 2 * d + 17, 1][i % 5]
+        eff = max(member, d)
+        total = eff * 3 + rnd.randrange(1, eff)
+        if opt["mode"] == "normal" and quick:
+            total = min(total, 2 * eff + eff // 2)
+        base = E.mk_job(f"c13-ms-{i}", writer="lzip", opt=opt, input=rand_input(rnd, total, d), chunk_size=member, decode=False)
+        scripts = [[], [dict(op="wall", n=eff // 3 + 1)], [dict(op="wall", n=eff + eff // 4 + 1)],
+                   [dict(op="w", n=eff - 1), dict(op="w", n=2), dict(op="w", n=total - eff - 1)],
+                   [dict(op="w", n=n) for n in _ragged(rnd, total, [1, 700, max(1, member - 1), eff // 2 + 3, eff - 1, eff + 1, 2 * eff + 5])]]
+        js = [dict(base, id=f"c13-ms-{i}-p{k}", script=sc, decode=(k == 0)) for k, sc in enumerate(scripts)]
+        groups.append(("partition-member-size/lzip", js))
+        n_ms += 1
+    if not n_ms:
+        raise ToolError("vacuous C13 run: no LZIP partition group with a member size")
     # LookAheadGate family: normal mode, nice_len below MATCH_LEN_MAX, data that gives the optimal parser chains of thousands of
     # positions ending in a match of maximal length, under 1-byte / 13-byte / 4096-byte writes and one write: if a position
     # deep in the look-ahead is consumed with less than MATCH_LEN_MAX bytes buffered, the long match is truncated to whatever
